@@ -168,7 +168,7 @@ def run(c, a):
         only = [rp_obj["case"]["transport"]]
     else:
         only = sorted(TRANSPORTS)
-    reps = 12 if thorough and not a.replay else 1
+    reps = 4 if thorough and not a.replay else 1
     cases = []
     for rep in range(reps):
         for tr in only:
